@@ -159,6 +159,16 @@ pub fn lw_pool(quick: bool) -> Vec<LwSpec> {
         let cfg = LwCfg { latency: 5, ..wide.clone() };
         v.push(sp(&format!("bulk.long-unreliable-run.{}", name), &cfg, &s, env, 1));
     }
+    // F10c: more than 127 packets of 4 bytes queued at once on a warm connection: a frame has room for 147 such datagrams, its header
+    // counts at most 127
+    {
+        let ops: Vec<Op> = std::iter::once(send(0, 0, 0, Reliable, 20)).chain((0..400usize).map(|i| send(0, 0, (i % 3) as u8, Unreliable, 4))).collect();
+        let s = Arc::new(ScriptInfo::new(warm(&ops, 30)));
+        let mut env = env_live(30, if quick { 3 } else { 6 });
+        env.fates = &[Fate::Deliver, Fate::Drop]; env.deltas = &[20];
+        let cfg = LwCfg { latency: 5, ..wide.clone() };
+        v.push(sp("bulk.tiny-burst", &cfg, &s, env, 1));
+    }
     // F10b: the datagram header encodings switch at parent leads of 128 and 256: a Reliable packet on one channel, a Persistent one on
     // channel 0, filler on channel 1, and exactly one more packet on channel 0 whose window parent lead is L - the only packet that
     // can overtake the Persistent one if its first transmission is lost
